@@ -131,7 +131,7 @@ PLANNED = {
 }
 
 # properties whose model, theorems and tie are built and integrated
-LANDED = ["C01", "C02", "C03", "C04", "C05", "C06", "C07", "C10", "C11", "C12", "C14", "C15", "C16", "C17", "C18", "C19", "C20"]
+LANDED = ["C%02d" % i for i in range(1, 21)]
 CLAIMED = {k: PLANNED[k] for k in LANDED}
 
 ALL = ["C%02d" % i for i in range(1, 21)]
